@@ -79,7 +79,11 @@ func runElps(args []string, stdout io.Writer) error {
 
 	env := lisp.NewEnv(nil)
 	env.Runtime.Reader = parser.NewReader()
-	env.Runtime.Library = &lisp.FSLibrary{FS: os.DirFS(rootDir)}
+	library, err := lisp.NewRootedFSLibrary(rootDir)
+	if err != nil {
+		return fmt.Errorf("cannot open root directory: %w", err)
+	}
+	env.Runtime.Library = library
 	for _, rc := range []*lisp.LVal{
 		lisp.InitializeUserEnv(env),
 		lisplib.LoadLibrary(env),
